@@ -16,7 +16,8 @@ TextAgrees(t) == /\ \A i \in 1..Len(t) : ~t[i].blk => t[i].lseq = t[i].seq
                  /\ \A i \in 1..Len(t) : \A j \in 1..Len(t[i].items) : t[i].items[j].lseq = t[i].items[j].seq
 
 Clauses(e) ==
-  CASE e.act = "New" -> Chk(e.exc = "", e, "C10.build-failed") \o Chk(e.exc # "" \/ TextAgrees(e.obs), e, "C10.text-number-differs-from-attribute")
+  CASE e.act = "Given" -> <<>>        \* the state of an object somebody else built (recorded executions): nothing claimed
+    [] e.act = "New" -> Chk(e.exc = "", e, "C10.build-failed") \o Chk(e.exc # "" \/ TextAgrees(e.obs), e, "C10.text-number-differs-from-attribute")
     [] e.act = "Resequence" ->
          IF ~NoEmptyBlock(pre) THEN <<>>       \* outside the domain (non-empty groups)
          ELSE
